@@ -2,7 +2,7 @@
 
 One configured KSK, one request bundle whose schema slot publishes and signs with it.  The product of
   * validity windows: valid_from in {inception-1s, inception, inception+1s} x valid_until in {unset, expiration-1s, expiration, expiration+1s},
-  * identity claims: key tag unset / right / wrong; DS SHA-256 unset / right (upper or lower case) / wrong; size / exponent / algorithm claims right or wrong,
+  * identity claims: key tag unset / right / wrong / 0 (legal, falsy); DS SHA-256 unset / right (upper or lower case) / wrong; size / exponent / algorithm claims right or wrong,
   * token contents: the right key; a different key under the same label; other size; other exponent; EC instead of RSA (and vice versa);
     public or private object missing; duplicated public / private object; key in the second slot / second module; EC private object without point,
 is run through the real sign_bundles() against the emulator.  The property text is the oracle: a signature by
@@ -171,7 +171,8 @@ def run(tier: str, driver_ok: bool) -> Result:
     runs = []
     algs = [(8, K.rsa_keys(2048, 65537)[0]), (10, K.rsa_keys(1024, 65539)[1]), (13, K.ec_keys("P-256")[2]), (14, K.ec_keys("P-384")[2])]
     windows = list(itertools.product([-1, 0, 1], [None, -1, 0, 1]))
-    identity = list(itertools.product(["unset", "right", "wrong"], ["unset", "upper", "lower", "wrong"], ["right", "size", "exponent", "algorithm"]))
+    # tag "zero": key_tag 0 is a legal configured value (0..65535) that is falsy in Python; it is a WRONG claim for every fixture key (none has tag 0)
+    identity = list(itertools.product(["unset", "right", "wrong", "zero"], ["unset", "upper", "lower", "wrong"], ["right", "size", "exponent", "algorithm"]))
     for alg, tk in algs:
         for variant in TOKEN_VARIANTS:
             if variant == "ec_priv_has_point" and tk.kind == "rsa":
@@ -209,6 +210,8 @@ def run(tier: str, driver_ok: bool) -> Result:
                     e["key_tag"] = dk.key_tag
                 elif tagc == "wrong":
                     e["key_tag"] = (dk.key_tag % 65535) + 1
+                elif tagc == "zero":
+                    e["key_tag"] = 0
                 ds = hashlib.sha256(b"\x00" + key_to_rdata(dk)).hexdigest()
                 if dsc == "upper":
                     e["ds_sha256"] = ds.upper()
@@ -275,7 +278,7 @@ def run(tier: str, driver_ok: bool) -> Result:
                     )
                 if allowed and not signed and AlgorithmDNSSEC[cfg_alg].value == alg:  # (else: C02's algorithm-set rule refuses)
                     res.violation("every stated condition holds but signing did not complete", case, key=f"incomplete:{variant}", impl=impl, facts=facts)
-                if window_ok and facts["duplicate"] and claims_ok and tagc != "wrong" and dsc != "wrong" and impl != {"error": "runtime"}:
+                if window_ok and facts["duplicate"] and claims_ok and tagc not in ("wrong", "zero") and dsc != "wrong" and impl != {"error": "runtime"}:
                     res.violation("two objects under the label in one slot: expected the run to stop with the duplicate-label error", case, key=f"duplicate-class:{variant}", impl=impl if "ok" not in impl else "ok")
                 if not window_ok and impl != {"violation": "keyUsage"}:
                     res.violation("key outside its validity window: expected a key-usage policy violation", case, key="window-class", impl=impl)
